@@ -10,6 +10,7 @@ import XrayProofs.IntBinom
 import XrayProofs.IntDigits
 import XrayProofs.IntText
 import XrayProofs.IntLib
+import XrayProofs.IntBits
 namespace XrayModel.C14
 open XrayModel LB
 
@@ -392,6 +393,37 @@ theorem lib_abs_sign (a : Int) : Lib.abs a = (a.natAbs : Int) ∧ Lib.sign a = a
 
 example : Lib.floorRoot 1 2 = some (.ok 1) := by decide
 example : Lib.ceilRoot 2 2 = some (.ok 2) := by decide
+
+/-! ### bitwise operations -/
+
+/-- `bit_and`, `bit_or`, `bit_xor`: the result is canonical in all four representation combinations and denotes the
+Int-level operation, which is the two's-complement operation bit by bit (`Bits.tbit x i` is bit `i` of the infinite
+two's-complement expansion of `x`; by `bits_determine` the bits determine the integer) -/
+theorem bit_ops_spec (a b : LB) (ha : a.wf) (hb : b.wf) :
+    ((LB.bitand a b).wf ∧ ∀ i, Bits.tbit (LB.bitand a b).den i = (Bits.tbit a.den i && Bits.tbit b.den i)) ∧
+    ((LB.bitor a b).wf ∧ ∀ i, Bits.tbit (LB.bitor a b).den i = (Bits.tbit a.den i || Bits.tbit b.den i)) ∧
+    ((LB.bitxor a b).wf ∧ ∀ i, Bits.tbit (LB.bitxor a b).den i = (Bits.tbit a.den i ^^ Bits.tbit b.den i)) := by
+  obtain ⟨h1, e1⟩ := Bits.bitand_spec a b ha hb
+  obtain ⟨h2, e2⟩ := Bits.bitor_spec a b ha hb
+  obtain ⟨h3, e3⟩ := Bits.bitxor_spec a b ha hb
+  exact ⟨⟨h1, fun i => by rw [e1, Bits.iland_tbit]⟩, ⟨h2, fun i => by rw [e2, Bits.ilor_tbit]⟩,
+    ⟨h3, fun i => by rw [e3, Bits.ilxor_tbit]⟩⟩
+
+theorem bits_determine (x y : Int) (h : ∀ i, Bits.tbit x i = Bits.tbit y i) : x = y :=
+  Bits.tbit_ext x y h
+
+/-- the bitwise operations are commutative (whatever the representations of the operands) -/
+theorem bit_ops_comm (a b : LB) (ha : a.wf) (hb : b.wf) :
+    LB.bitand a b = LB.bitand b a ∧ LB.bitor a b = LB.bitor b a ∧ LB.bitxor a b = LB.bitxor b a := by
+  obtain ⟨h1, e1⟩ := Bits.bitand_spec a b ha hb
+  obtain ⟨h1', e1'⟩ := Bits.bitand_spec b a hb ha
+  obtain ⟨h2, e2⟩ := Bits.bitor_spec a b ha hb
+  obtain ⟨h2', e2'⟩ := Bits.bitor_spec b a hb ha
+  obtain ⟨h3, e3⟩ := Bits.bitxor_spec a b ha hb
+  obtain ⟨h3', e3'⟩ := Bits.bitxor_spec b a hb ha
+  exact ⟨wf_den_inj _ _ h1 h1' (by rw [e1, e1', Bits.iland_comm]),
+    wf_den_inj _ _ h2 h2' (by rw [e2, e2', Bits.ilor_comm]),
+    wf_den_inj _ _ h3 h3' (by rw [e3, e3', Bits.ilxor_comm])⟩
 
 /-- non-vacuity: operands straddling 2^63 -/
 example : Correct (LB.mul (long 9223372036854775808) (short (-1))) (-9223372036854775808) :=
